@@ -45,6 +45,28 @@ CHECKS = {
              technique=T, ref="6/C20"),
 }
 
+TS = "TLA+ model checking (TLC on MossStore) + replay of TLC-generated behaviours (rounds, I/O failures, crash images, history walks, read-only opens) into the real store"
+STORE_NOTE = ("Trusted: TLC + CommunityModules Json; the File wrapper handed to StoreOptions.OpenFile forwards to *os.File; the crash model is the property's "
+              "(records lost from the unsynced tail, last one torn at byte classes); content in MossStore is abstract (batch numbers), key-level semantics "
+              "of persisted data is decided by the store-backed MossColl replays; expected values are computed by TLC.")
+CHECKS.update({
+ "C05": dict(text="TLC checks MossStore (every file operation one action, Crash anywhere, Recover = openStore/ScanFooter) for RecoverIsPrefix/AtLeastSynced/OpenNeverFails; TLC-chosen crash points and "
+             "disk images are materialised from the writes the implementation really issued (every tear offset class per record kind), reopened with the real OpenStore and compared.",
+             technique=TS, ref="6/C05", engine="mossstore", note=STORE_NOTE),
+ "C06": dict(text="TLC checks PublishedFooterReadable/CurrentFileExists with IOFail at every file operation; each abstract failing step is expanded into its concrete operations and error kinds "
+             "(error, short write, stat error) on the recorded File; store content, a reopened copy of the directory, OnError/Persist errors and catch-up are compared.",
+             technique=TS, ref="6/C06", engine="mossstore", note=STORE_NOTE),
+ "C07": dict(text="TLC checks CompactionPreservesContent/FullCompactionShape/OldFilesGoAway over every splice point (policy is a parameter of the spec); forced full compactions and appends are replayed, "
+             "content before/after, footer shape (segments, deletion markers, duplicates) and the directory listing are compared; partial compaction policies are swept by the store-backed MossColl replays (C01/C04/C11).",
+             technique=TS, ref="6/C07", engine="mossstore", note=STORE_NOTE),
+ "C12": dict(text="TLC checks HistoryDescends/HistoryReadable; behaviours with SnapshotPrevious walks to every depth, SnapshotRevert to any footer of the walk, reopen and further rounds are replayed and "
+             "the content at every position compared (store, collection, reopened copy of the directory).",
+             technique=TS, ref="6/C12", engine="mossstore", note=STORE_NOTE),
+ "C18": dict(text="TLC checks ReadOnlyFrame/ReadOnlyOpenFrame; directories left by rounds, failed compactions and crashes (plus junk files) are opened read-only and exercised; the directory hash, "
+             "the recorded File operations and the os.Remove hook are checked after every step.",
+             technique=TS, ref="6/C18", engine="mossstore", note=STORE_NOTE),
+})
+
 NA = {
  "C17": "data races are pairs of unsynchronised memory accesses below the grain of any action of a TLA+ specification; deciding them needs a race detector, a different family of technique (DESIGN.md section 7)",
 }
@@ -82,6 +104,8 @@ def main():
         "engines": [
             {"name": "mosscoll", "path": "bin/check_coll.py", "serves_properties": [p for p in ["C01","C02","C04","C08","C10","C11","C13","C19","C20"] if p in CHECKS],
              "kind_free_text": "TLC on specs/MossColl.tla (MCColl.tla) + harness/cmd/replay (direction A: TLC behaviours replayed into the gated implementation)"},
+            {"name": "mossstore", "path": "bin/check_store.py", "serves_properties": [p for p in ["C05","C06","C07","C12","C18"] if p in CHECKS],
+             "kind_free_text": "TLC on specs/MossStore.tla (MCStore.tla) + harness/cmd/storereplay (rounds forced through Store.Persist options, fault injection and crash-image materialisation through the recorded File)"},
         ],
         "checks": checks,
         "not_applicable": na,
